@@ -215,7 +215,17 @@ func (c *Ctx) failureExits(fn *ssa.Function, l *natLoop, call ssa.CallInstructio
 						failSucc = b.Succs[1]
 					}
 					// (does not count as the error test itself)
-					if c.staysInLoop(fn, l, failSucc) {
+					// an io.EOF that came with a full read is progress (io.ReaderAt allows it at the
+					// end of the data): the EOF edge may go round only through the true edge of a
+					// comparison "count == length asked for"
+					full := fullReadEdges(fn, l, results)
+					behindFull := false
+					for e := range full {
+						if ir.EdgeDominates(fn, e, b) {
+							behindFull = true // the EOF test itself sits behind "count == length"
+						}
+					}
+					if !behindFull && c.staysInLoopEOF(fn, l, b, failSucc, res, full) {
 						return false, "the io.EOF outcome of " + ir.CallID(call) + " continues the loop at " + c.Pos(ir.BlockPos(failSucc))
 					}
 					continue
@@ -1009,4 +1019,147 @@ func lockKey(v ssa.Value, depth int) string {
 		return x.Comment + ":" + x.Name()
 	}
 	return v.Name()
+}
+
+// fullReadEdges: the edges inside the loop on which the count result of the call
+// equals a length (count == len(buf), count >= len(buf), count == n with n an
+// integer that is not a constant).
+func fullReadEdges(fn *ssa.Function, l *natLoop, results []ssa.Value) map[ir.Edge]bool {
+	out := map[ir.Edge]bool{}
+	var cnt ssa.Value
+	for _, r := range results {
+		if ex, ok := r.(*ssa.Extract); ok && isNumeric(ex.Type()) {
+			cnt = ex
+		}
+	}
+	if cnt == nil {
+		return out
+	}
+	for _, b := range fn.Blocks {
+		if !l.body[b.Index] || len(b.Succs) != 2 {
+			continue
+		}
+		ifi, ok := b.Instrs[len(b.Instrs)-1].(*ssa.If)
+		if !ok {
+			continue
+		}
+		cmp, ok := ifi.Cond.(*ssa.BinOp)
+		if !ok {
+			continue
+		}
+		x, y := ir.StripConv(cmp.X), ir.StripConv(cmp.Y)
+		op := cmp.Op
+		if y == cnt {
+			x, y = y, x
+			switch op {
+			case token.LSS:
+				op = token.GTR
+			case token.GTR:
+				op = token.LSS
+			case token.LEQ:
+				op = token.GEQ
+			case token.GEQ:
+				op = token.LEQ
+			}
+		}
+		if x != cnt {
+			continue
+		}
+		if _, isK := ir.ConstInt(y); isK {
+			continue
+		}
+		switch op {
+		case token.EQL, token.GEQ:
+			out[ir.Edge{From: b.Index, To: b.Succs[0].Index}] = true
+		case token.NEQ, token.LSS:
+			out[ir.Edge{From: b.Index, To: b.Succs[1].Index}] = true
+		}
+	}
+	return out
+}
+
+// staysInLoopCut: staysInLoop with the given edges taken out.
+func (c *Ctx) staysInLoopCut(fn *ssa.Function, l *natLoop, b *ssa.BasicBlock, cut map[ir.Edge]bool) bool {
+	if !l.body[b.Index] {
+		return false
+	}
+	seen := map[int]bool{b.Index: true}
+	stack := []*ssa.BasicBlock{b}
+	for len(stack) > 0 {
+		x := stack[len(stack)-1]
+		stack = stack[:len(stack)-1]
+		if x == l.header {
+			return true
+		}
+		for _, s := range x.Succs {
+			if cut[ir.Edge{From: x.Index, To: s.Index}] {
+				continue
+			}
+			if l.body[s.Index] && !seen[s.Index] {
+				seen[s.Index] = true
+				stack = append(stack, s)
+			}
+		}
+	}
+	return false
+}
+
+// staysInLoopEOF: can the loop go round from the edge from->to on which the error
+// errv is known to be io.EOF (non-nil), without crossing one of the cut edges?
+// Followed path by path: a nil test of the error - directly or through a phi that
+// takes the error's value on the edge it is entered by - can only take its non-nil
+// branch; where the phi takes the constant nil (the error was cleared on that
+// path) only the nil branch.
+func (c *Ctx) staysInLoopEOF(fn *ssa.Function, l *natLoop, from, to *ssa.BasicBlock, errv ssa.Value, cut map[ir.Edge]bool) bool {
+	type st struct{ b, pred int }
+	seen := map[st]bool{}
+	var walk func(b, pred *ssa.BasicBlock) bool
+	walk = func(b, pred *ssa.BasicBlock) bool {
+		if !l.body[b.Index] {
+			return false
+		}
+		if b == l.header {
+			return true
+		}
+		k := st{b.Index, pred.Index}
+		if seen[k] {
+			return false
+		}
+		seen[k] = true
+		succs := b.Succs
+		if len(b.Succs) == 2 {
+			if ifi, ok := b.Instrs[len(b.Instrs)-1].(*ssa.If); ok {
+				if e, nilWhenTrue, ok := ir.NilCheck(ifi.Cond); ok {
+					val := e
+					if ph, isPhi := e.(*ssa.Phi); isPhi && ph.Block() == b {
+						for i, p := range b.Preds {
+							if p == pred && i < len(ph.Edges) {
+								val = ph.Edges[i]
+							}
+						}
+					}
+					nonNil, isNil := sameErrValue(val, errv), ir.IsNilConst(val)
+					switch {
+					case nonNil && nilWhenTrue, isNil && !nilWhenTrue:
+						succs = []*ssa.BasicBlock{b.Succs[1]}
+					case nonNil && !nilWhenTrue, isNil && nilWhenTrue:
+						succs = []*ssa.BasicBlock{b.Succs[0]}
+					}
+				}
+			}
+		}
+		for _, s := range succs {
+			if cut[ir.Edge{From: b.Index, To: s.Index}] {
+				continue
+			}
+			if walk(s, b) {
+				return true
+			}
+		}
+		return false
+	}
+	if cut[ir.Edge{From: from.Index, To: to.Index}] {
+		return false
+	}
+	return walk(to, from)
 }
